@@ -339,6 +339,40 @@ def explore_chain(st, rows, w):
                 st.case(None, nontrivial=any(any(r) for r in rows), outcome=("chain", how, got if not isinstance(got, bytes) else len(got)))
                 if not same(got, exp, mask):
                     st.violation("C19/pdfstream-chain:" + how, case, exp, got, "CCITTFaxDecode as a later stage of a filter chain (or behind decryption) differs from direct decoding")
+            # the parameter dictionary as an INDIRECT object: inside the /DecodeParms array, as the whole /DecodeParms, both
+            # (added after seeded defect C19_19 was missed); a stand-in document resolves the references
+            from pdfminer.pdftypes import PDFObjRef
+
+            class _Doc:
+                def __init__(self, objs):
+                    self.objs = objs
+
+                def getobj(self, objid):
+                    return self.objs[objid]
+
+            hexraw = data.hex().encode() + b">"
+            for label, make in (
+                ("chain:[null ref]", lambda doc: {"Filter": [LIT("AHx"), LIT("CCF")], "DecodeParms": [None, PDFObjRef(doc, 7, 0)]}),
+                ("chain:ref->[null dict]", lambda doc: {"Filter": [LIT("AHx"), LIT("CCF")], "DecodeParms": PDFObjRef(doc, 8, 0)}),
+                ("chain:ref->[null ref]", lambda doc: {"Filter": [LIT("AHx"), LIT("CCF")], "DecodeParms": PDFObjRef(doc, 9, 0)}),
+                ("single:ref", lambda doc: {"Filter": LIT("CCF"), "DecodeParms": PDFObjRef(doc, 7, 0)}),
+                ("single:[ref]", lambda doc: {"Filter": [LIT("CCF")], "DecodeParms": [PDFObjRef(doc, 7, 0)]}),
+            ):
+                doc = _Doc({7: parms})
+                doc.objs[8] = [None, parms]
+                doc.objs[9] = [None, PDFObjRef(doc, 7, 0)]
+                sd = make(doc)
+                case = {"chain": ["indirect"], "how": "indirect:" + label, "w": w, "rows": [list(r) for r in rows], "bytealign": bytealign, "blackis1": blackis1}
+                st.states += 1
+                st.transitions += 1
+                st.traces += 1
+                try:
+                    got = PDFStream(sd, hexraw if label.startswith("chain") else data).get_data()
+                except Exception as e:  # noqa
+                    got = f"{type(e).__name__}: {e}"
+                st.case(None, nontrivial=any(any(r) for r in rows), outcome=("indirect", label, got if not isinstance(got, bytes) else len(got)))
+                if not same(got, exp, mask):
+                    st.violation("C19/pdfstream-indirect-parms:" + label, case, exp, got, "the parameter dictionary given as an indirect object changes the decoded rows")
             # spellings of a single filter and its parameters: name or one-element array, each way round (added after seeded defect C19_13 was missed)
             for fname in ("CCITTFaxDecode", "CCF"):
                 for f_arr in (False, True):
